@@ -90,7 +90,46 @@ type selected struct {
 	support bool
 }
 
+// runCheck: `check -p <id>` runs one property; `check -p all` (or a comma-separated list) runs several in one process,
+// loading the tree once; the exit code is the worst of the individual ones.
 func runCheck(args []string) int {
+	for i, a := range args {
+		if a == "-p" && i+1 < len(args) && (args[i+1] == "all" || strings.Contains(args[i+1], ",")) {
+			var ids []string
+			if args[i+1] == "all" {
+				var cfgs []PropConfig
+				vd := verifDir
+				if d := os.Getenv("GOVC_VERIF"); d != "" {
+					vd = d
+				}
+				if err := loadJSON(filepath.Join(vd, "props.json"), &cfgs); err != nil {
+					fmt.Fprintln(os.Stderr, "govc: engine error:", err)
+					return 2
+				}
+				for _, c := range cfgs {
+					ids = append(ids, c.ID)
+				}
+				sort.Strings(ids)
+			} else {
+				ids = strings.Split(args[i+1], ",")
+			}
+			worst := 0
+			for _, id := range ids {
+				sub := append(append([]string{}, args[:i+1]...), id)
+				sub = append(sub, args[i+2:]...)
+				rc := runCheckOne(sub)
+				fmt.Printf("EXIT %s %d\n", id, rc)
+				if rc > worst {
+					worst = rc
+				}
+			}
+			return worst
+		}
+	}
+	return runCheckOne(args)
+}
+
+func runCheckOne(args []string) int {
 	fs := flag.NewFlagSet("check", flag.ExitOnError)
 	prop := fs.String("p", "", "property id")
 	tier := fs.String("tier", "", "quick|thorough")
